@@ -237,6 +237,7 @@ type merged struct {
 	inconcl     []string
 	raceReports int64
 	restarts    int
+	hangs       int
 	mu          sync.Mutex
 }
 
@@ -446,7 +447,17 @@ func DriverMain(prop, tier string, seed int64, self, raceBin string) int {
 				if strings.HasPrefix(sig, "HANG") {
 					mg.mu.Lock()
 					mg.inconcl = append(mg.inconcl, fmt.Sprintf("case %d made no progress within the hang watchdog (inconclusive); see %s.err", idx, prefix))
+					mg.hangs++
+					giveUp := mg.hangs > 24
+					if giveUp && mg.hangs == 25 {
+						mg.inconcl = append(mg.inconcl, "more than 24 cases made no progress: the remaining cases of the shards concerned are not run (what was observed until then stands)")
+					}
 					mg.mu.Unlock()
+					if giveUp {
+						// (each further hang would cost another watchdog period; violations already recorded decide the
+						// run, otherwise it is inconclusive either way)
+						return
+					}
 				} else {
 					site := panicSite("panic(\n" + string(eb))
 					mg.fatal("fatal:"+site, fmt.Sprintf("child process died at case %d: %s\n%s", idx, sig, tail(string(eb), 30)), idx)
